@@ -9,3 +9,4 @@ CONSTANTS
   Bases = {"0", "1", "T2", "T1"}
   DieLen = 2
   DieSlimLen = 3
+  DieCoreFrom = 3
